@@ -39,13 +39,15 @@ func (node *tagForNode) Execute(ctx *ExecutionContext, writer TemplateWriter) (f
 		}
 	}
 
-	// Register loopInfo in public context
-	forCtx.Private["forloop"] = loopInfo
-
+	// What to iterate over is evaluated where the tag stands: a "forloop" named
+	// there is the one of the enclosing loop, not the new one.
 	obj, err := node.objectEvaluator.Evaluate(forCtx)
 	if err != nil {
 		return err
 	}
+
+	// Register loopInfo in public context
+	forCtx.Private["forloop"] = loopInfo
 
 	obj.IterateOrder(func(idx, count int, key, value *Value) bool {
 		// There's something to iterate over (correct type and at least 1 item)
